@@ -18,3 +18,29 @@ package pflag
 //@   flag panics_ok
 //@   ensures C12_source_specific_tag_wins: tagHasKey(sf.Tag, "dialspflag") ==> name == tagLookup(sf.Tag, "dialspflag")
 //@   ensures C12_else_the_dials_tag: !tagHasKey(sf.Tag, "dialspflag") ==> tagHasKey(sf.Tag, "dials") && name == tagLookup(sf.Tag, "dials")
+
+// Value: only what the command line set is looked at (pflag.FlagSet.Visit, not VisitAll); flags are registered
+// with the alias mangler in front of the flatten mangler.
+//@ extern func pflag.(*FlagSet).Visit(f, fn)
+//@   modifies *
+//@ func pflag.(*Set).Value(s, ctx, t) (v, err)
+//@   props C12 C18
+//@   flag noframe
+//@   flag panics_ok
+//@   flag only_at
+//@   flag vacuity off
+//@   requires s != nil && t != nil
+//@   modifies *
+//@   at call s.Flags.Visit(:
+//@     assert C12_C18_only_flags_given_on_the_command_line_are_visited: true
+//@ func pflag.(*Set).registerFlags(s, tmpl, ptyp) (err)
+//@   props C12 C14
+//@   flag noframe
+//@   flag panics_ok
+//@   flag only_at
+//@   flag vacuity off
+//@   requires s != nil && ptyp != nil
+//@   modifies *
+//@   at call transform.NewTransformer(:
+//@     assert C14_C12_aliases_are_expanded_before_flattening: len(arg1) == 2 && isType(cell(selem(arg1, 0), "Iface"), "*transform.AliasMangler")
+//@          && isType(cell(selem(arg1, 1), "Iface"), "*transform.FlattenMangler")
